@@ -1055,6 +1055,21 @@ func (env *Env) havocFrame(fi *FuncInfo, m string, ce *Env, st *State) {
 	}
 	ref := ce.eval(ex, st)
 	_, sty, isPtr := structOf(ce.subst(ref.Ty))
+	if is := ce.sortOf(ref.Ty); strings.HasPrefix(is, "If_") {
+		// ghost field of an interface value
+		if ts := c.e.typeSpecForSort(is); ts != nil {
+			if texpr, ok := ts.GhostFields[field]; ok {
+				gt := ce.ghostTypeOf(ts, field, texpr)
+				key := is + ".$" + field
+				h := ce.heapTermK(st, key, is, ce.sortOf(gt))
+				nv := ce.havoc(st, "mod_"+field, gt)
+				st.heap[key] = app("store", h, ref.T, nv.T)
+				return
+			}
+		}
+		c.unsupported("modifies %q: no such ghost field on the interface", m)
+		return
+	}
 	if sty == nil || !isPtr {
 		c.unsupported("modifies %q: not a pointer to struct", m)
 		return
